@@ -296,6 +296,14 @@ def _strategy():
 
 
 def run(ctx):
+    # import the code under test (and the generators) once in the parent: forked workers inherit the modules
+    import event_model  # noqa: F401
+    import hypothesis.strategies  # noqa: F401
+
+    import bluesky.callbacks.stream  # noqa: F401
+
+    from .. import docgen  # noqa: F401
+
     ctx.hyp(_strategy, check_case, max_examples=ctx.pick(3000, 150000))
 
 
